@@ -3,6 +3,7 @@ package main
 
 import (
 	"bufio"
+	"bytes"
 	"encoding/json"
 	"fmt"
 	"io"
@@ -95,70 +96,11 @@ func selfCheck() {
 
 // ---------------- worker ----------------
 
-// worker reads case numbers from stdin, one per line, and answers "S n" before and "R json" after each.
 func worker(prop, tier string, seed int64) {
 	p := mustProp(prop)
 	limitMemory()
 	selfCheck()
-	in := bufio.NewScanner(os.Stdin)
-	out := bufio.NewWriter(os.Stdout)
-	minBudget := 45 * time.Second
-	if tier == "thorough" {
-		minBudget = 120 * time.Second
-	}
-	for in.Scan() {
-		line := strings.TrimSpace(in.Text())
-		if line == "" {
-			continue
-		}
-		n, err := strconv.Atoi(line)
-		if err != nil {
-			continue
-		}
-		fmt.Fprintf(out, "S %d\n", n)
-		out.Flush()
-		res := fw.RunCase(p, tier, seed, n, nil, false)
-		type outT struct {
-			*fw.CaseResult
-			Replays []*fw.ReplayFile `json:"replays,omitempty"`
-		}
-		o := outT{CaseResult: res}
-		if res.Infra == "" && len(res.Violations) > 0 {
-			seen := map[string]bool{}
-			for _, v := range res.Violations {
-				if seen[v.Sig] {
-					continue
-				}
-				seen[v.Sig] = true
-				dec, mres, runs := fw.Minimise(p, tier, seed, n, res, v.Sig, minBudget/time.Duration(len(res.Violations)))
-				// final replay with log
-				lres := fw.RunCase(p, tier, seed, n, dec, true)
-				detail := v.Detail
-				for _, mv := range mres.Violations {
-					if mv.Sig == v.Sig {
-						detail = mv.Detail
-					}
-				}
-				o.Replays = append(o.Replays, &fw.ReplayFile{
-					Property: prop, Engine: p.Engine, Tier: tier, Seed: seed, Case: n, Signature: v.Sig, Detail: detail,
-					Desc: mres.Desc, Decisions: dec, OrigLen: len(res.Decisions), MinRuns: runs, Log: tail(lres.Log, 200),
-				})
-			}
-		}
-		if len(res.Decisions) > 400 {
-			res.Decisions = nil // keep the result line small; the trace hash stays
-		}
-		b, _ := json.Marshal(o)
-		fmt.Fprintf(out, "R %s\n", b)
-		out.Flush()
-	}
-}
-
-func tail(s []string, n int) []string {
-	if len(s) > n {
-		return s[len(s)-n:]
-	}
-	return s
+	fw.WorkerLoop(p, tier, seed)
 }
 
 // ---------------- known findings ----------------
@@ -270,6 +212,10 @@ func drive(prop, tier string) int {
 				// (re)start a worker process and feed it cases until it dies or we are done
 				cmd := exec.Command(exe, "worker", prop, tier, strconv.FormatInt(seed, 10))
 				cmd.Env = append(os.Environ(), "GOMAXPROCS=2")
+				if p.External != nil {
+					cmd = exec.Command(p.External.Bin, p.External.Args...)
+					cmd.Env = append(os.Environ(), "GOMAXPROCS=4", p.External.Env+"=worker,"+tier+","+strconv.FormatInt(seed, 10))
+				}
 				stdin, _ := cmd.StdinPipe()
 				stdout, _ := cmd.StdoutPipe()
 				var errBuf strings.Builder
@@ -336,12 +282,22 @@ func drive(prop, tier string) int {
 	for _, d := range deaths {
 		cmd := exec.Command(exe, "case", prop, tier, strconv.FormatInt(seed, 10), strconv.Itoa(d.caseNo))
 		cmd.Env = append(os.Environ(), "GOMAXPROCS=2")
+		if p.External != nil {
+			cmd = exec.Command(p.External.Bin, p.External.Args...)
+			cmd.Env = append(os.Environ(), "GOMAXPROCS=4", p.External.Env+"=case,"+tier+","+strconv.FormatInt(seed, 10)+","+strconv.Itoa(d.caseNo))
+		}
 		var eb strings.Builder
 		cmd.Stderr = &limitedWriter{w: &eb, n: 64 << 10}
 		outB, err := cmd.Output()
 		if err == nil {
 			// did not reproduce: treat as infrastructure flake, but use its result
 			var wo workerOut
+			if i := bytes.IndexByte(outB, '{'); i > 0 {
+				outB = outB[i:]
+			}
+			if j := bytes.IndexByte(outB, '\n'); j > 0 {
+				outB = outB[:j]
+			}
 			if json.Unmarshal(outB, &wo.CaseResult) == nil {
 				results = append(results, &wo)
 			}
@@ -442,26 +398,26 @@ func drive(prop, tier string) int {
 		samples = append(samples, map[string]interface{}{"note": "no sample recorded"})
 	}
 	cov := map[string]interface{}{
-		"evaluations":         len(results),
-		"distinct_nontrivial": len(distinct),
-		"nontrivial_cases":    nontrivial,
-		"rule":                p.Rule,
-		"samples":             samples,
-		"exhaustive":          false,
-		"cases_planned":       total,
-		"wall_cap_hit":        capped,
-		"logical_steps_simulated": steps,
-		"simulated_time_note": "the library reads no clock; simulated time is reported as logical steps (delivery events / API calls / scheduler decisions)",
-		"runs_per_hour":       int(float64(len(results)) / wall * 3600),
-		"seeds_per_hour_note": "one VERIF_SEED per invocation; every case derives its own sub-seed H(seed, property, case#)",
+		"evaluations":              len(results),
+		"distinct_nontrivial":      len(distinct),
+		"nontrivial_cases":         nontrivial,
+		"rule":                     p.Rule,
+		"samples":                  samples,
+		"exhaustive":               false,
+		"cases_planned":            total,
+		"wall_cap_hit":             capped,
+		"logical_steps_simulated":  steps,
+		"simulated_time_note":      "the library reads no clock; simulated time is reported as logical steps (delivery events / API calls / scheduler decisions)",
+		"runs_per_hour":            int(float64(len(results)) / wall * 3600),
+		"seeds_per_hour_note":      "one VERIF_SEED per invocation; every case derives its own sub-seed H(seed, property, case#)",
 		"distinct_decision_traces": len(traces),
-		"fault_kinds_fired":   faults,
-		"probes":              probes,
-		"scenario_kinds":      kinds,
-		"distinct_states":     len(states),
-		"components":          p.RealStub,
-		"workers":             W,
-		"known_findings_seen": keys(reportedKnown),
+		"fault_kinds_fired":        faults,
+		"probes":                   probes,
+		"scenario_kinds":           kinds,
+		"distinct_states":          len(states),
+		"components":               p.RealStub,
+		"workers":                  W,
+		"known_findings_seen":      keys(reportedKnown),
 	}
 	if p.Extra != nil {
 		p.Extra(cov)
@@ -592,6 +548,19 @@ func replay(path string) int {
 		return 2
 	}
 	p := mustProp(rf.Property)
+	if p.External != nil {
+		cmd := exec.Command(p.External.Bin, p.External.Args...)
+		cmd.Env = append(os.Environ(), p.External.Env+"=replay,"+path)
+		cmd.Stdout, cmd.Stderr = os.Stdout, os.Stderr
+		if err := cmd.Run(); err != nil {
+			if ee, ok := err.(*exec.ExitError); ok {
+				return ee.ExitCode()
+			}
+			fmt.Fprintln(os.Stderr, "INFRA:", err)
+			return 2
+		}
+		return 0
+	}
 	selfCheck()
 	var dec []int
 	if rf.Death == "" {
@@ -620,4 +589,11 @@ func replay(path string) int {
 	}
 	fmt.Printf("replay of %s: no violation (recorded signature %s)\n", path, rf.Signature)
 	return 0
+}
+
+func tail(s []string, n int) []string {
+	if len(s) > n {
+		return s[len(s)-n:]
+	}
+	return s
 }
